@@ -106,13 +106,13 @@ def check_crystal(part, row, ops, cell, sites_int, D, case, slab_bounds=None, st
     frac = np.asarray(uc["frac_pos"])
     M = frame_matrix(cell, case.get("frame"))
     nfail0 = len(part.failures)
-    if frac.size and (frac.min() < 0 or frac.max() >= 1):
+    if frac.size and (not (frac.min() >= 0) or frac.max() >= 1):
         part.fail("range:%s" % sk, "fractional coordinate outside [0,1) in %s (min %g max %g)" % (sk, frac.min(), frac.max()), case)
     scaled = frac * D
     ints = np.rint(scaled).astype(np.int64)
     err = np.abs(scaled - ints).max() if frac.size else 0.0
     part.dev("frac_grid_error", err / D)
-    if err > 1e-6:
+    if not (err <= 1e-6):
         part.fail("offgrid:%s" % sk, "image not on the expected rational position (err %g) in %s" % (err / D, sk), case)
     ints %= D
     # model
@@ -157,7 +157,7 @@ def check_crystal(part, row, ops, cell, sites_int, D, case, slab_bounds=None, st
         if g is None or symm.apply(g, sites_int[p], D) != img:
             bad_gen += 1
         mult = expected.get((p, img))
-        if mult is not None and abs(oc[k] - mult * occ[p]) > 1e-9:
+        if mult is not None and not (abs(oc[k] - mult * occ[p]) <= 1e-9):
             bad_occ += 1
     if bad_gen:
         part.fail("generator:%s" % sk, "%d image(s) report a generating operation that does not map the parent onto them in %s"
@@ -167,13 +167,13 @@ def check_crystal(part, row, ops, cell, sites_int, D, case, slab_bounds=None, st
                   % (bad_occ, sk), case)
     tot = float(np.sum(oc))
     want = len(ops) * float(np.sum(occ))
-    if abs(tot - want) > 1e-9 * max(1.0, want):
+    if not (abs(tot - want) <= 1e-9 * max(1.0, want)):
         part.fail("occupancy-total:%s" % sk, "total occupancy %.6f != |G| x asymmetric-unit occupancy %.6f in %s" % (tot, want, sk), case)
     cart = np.asarray(uc["cart_pos"])
     if len(frac):
         dev = np.abs(cart - frac @ M).max() / max(cell[:3])
         part.dev("cart_rel_error", dev)
-        if dev > 1e-9:
+        if not (dev <= 1e-9):
             part.fail("cart:%s" % sk, "cart_pos inconsistent with the cell (rel. dev %g) in %s" % (dev, sk), case)
     # outcome for vacuity accounting: multiplicity histogram
     hist = {}
@@ -208,19 +208,19 @@ def check_slab(part, c, uc, M, bounds, sk, case):
     for i in range(len(cells)):
         sl = slice(i * n_uc, (i + 1) * n_uc)
         cell = s["cell"][sl]
-        if np.abs(cell - cell[0]).max() > 0:
+        if not (np.abs(cell - cell[0]).max() <= 0):
             ok = False
             break
         cc = tuple(int(v) for v in cell[0])
         seen_cells.add(cc)
-        if np.abs(s["frac_pos"][sl] - (uc["frac_pos"] + cell[0])).max() > 1e-12:
+        if not (np.abs(s["frac_pos"][sl] - (uc["frac_pos"] + cell[0])).max() <= 1e-12):
             ok = False
         for k in ("asym_atom", "element", "symop", "label", "occupation"):
             if not np.array_equal(s[k][sl], uc[k]):
                 ok = False
     if seen_cells != set(cells):
         ok = False
-    if np.abs(s["cart_pos"] - s["frac_pos"] @ M).max() > 1e-9 * max(1.0, np.abs(s["cart_pos"]).max()):
+    if not (np.abs(s["cart_pos"] - s["frac_pos"] @ M).max() <= 1e-9 * max(1.0, np.abs(s["cart_pos"]).max())):
         ok = False
     if not ok:
         part.fail("slab-content:%s" % sk, "slab(%s) is not the unit-cell list repeated once per cell with the offset added in %s"
@@ -380,7 +380,7 @@ def conformance_apply(ctx, table):
         got = s.apply(arr)
         want = np.array([symm.apply_noreduce(op, p, N) for p in pts], dtype=float) / N
         ctx.trace()
-        if np.abs(got - want).max() > 1e-12:
+        if not (np.abs(got - want).max() <= 1e-12):
             ctx.fail("apply-conformance:%d" % c, "SymmetryOperation.apply of code %d disagrees with the exact model" % c,
                      {"code": c, "kind": "apply"})
 
